@@ -21,14 +21,24 @@ VmOk(ev) == LET d == Dispatch(ev.flags % 128)
                 /\ ev.clsSecure = d.secure /\ ev.clsLarge = d.large
                 /\ ev.v2 = Has(ev.flags, FV2)
 Id(ev) == <<ev.key, ev.input, ev.v2>>
-HashOk(ev) == /\ ev.ref # "missing" /\ ev.out = ev.ref
+HashOk(ev) == /\ ("ref" \in DOMAIN ev => (ev.ref # "missing" /\ ev.out = ev.ref))
               /\ (Id(ev) \in DOMAIN seen => seen[Id(ev)] = ev.out)
+              \* single-call hashing leaves the caller's rounding direction as it was (C13 / C17, fenv form)
+              /\ ("rcBefore" \in DOMAIN ev /\ ev.rcBefore >= 0 => ev.rcAfter = ev.rcBefore)
+\* intermediate and auxiliary results that must not depend on the build either: register file after
+\* each program of a hash, dataset items
+AuxId(ev) == IF ev.e = "prog" THEN <<"prog", ev.key, ev.input, ev.v2, ev.idx>> ELSE <<"item", ev.key, ev.hi, ev.lo>>
+AuxVal(ev) == IF ev.e = "prog" THEN ev.regs ELSE ev.bytes
+AuxOk(ev) == AuxId(ev) \in DOMAIN seen => seen[AuxId(ev)] = AuxVal(ev)
 
 TInit == l = 1 /\ seen = <<>> /\ done = {}
 TVm == l <= Len(TraceLog) /\ Ev.e = "vm" /\ VmOk(Ev) /\ l' = l + 1 /\ UNCHANGED <<seen, done>>
 THash == /\ l <= Len(TraceLog) /\ Ev.e = "hash" /\ HashOk(Ev) /\ l' = l + 1
          /\ seen' = [x \in DOMAIN seen \cup {Id(Ev)} |-> IF x = Id(Ev) THEN Ev.out ELSE seen[x]]
          /\ UNCHANGED done
-TSpec == TInit /\ [][TVm \/ THash]_<<l, seen, done>>
+TAux == /\ l <= Len(TraceLog) /\ Ev.e \in {"prog", "item"} /\ AuxOk(Ev) /\ l' = l + 1
+        /\ seen' = [x \in DOMAIN seen \cup {AuxId(Ev)} |-> IF x = AuxId(Ev) THEN AuxVal(Ev) ELSE seen[x]]
+        /\ UNCHANGED done
+TSpec == TInit /\ [][TVm \/ THash \/ TAux]_<<l, seen, done>>
 Accepted == TLCGet("stats").diameter - 1 = Len(TraceLog)
 =============================================================================
